@@ -1595,8 +1595,54 @@ pub fn c17_teardown(seed: u64) -> Scenario {
         }
         _ => {}
     }
-    let peer = PeerScript { role, isn, conn_id, wnd: 1 << 20, auto, pkts, steps, start_ms: 0, synack_delay_ms: r.range(0, 300) };
-    let side = Side { w: wops, r: rops };
+    let mut peer = PeerScript { role, isn, conn_id, wnd: 1 << 20, auto, pkts, steps, start_ms: 0, synack_delay_ms: r.range(0, 300) };
+    let mut side = Side { w: wops, r: rops };
+    // "close during timeout recovery": the window is opened by a first, acknowledged flight; a
+    // second flight of several segments goes unanswered until the retransmission timer has
+    // fired; the application closes around that time; then the peer acknowledges the flight
+    // piece by piece (everything had arrived, only its answers were late)
+    if r.chance(0.1) {
+        // (a flight that fits the window the first one opened: everything is on the wire once)
+        let n2 = r.range(4, 5);
+        peer.auto = AutoCfg { ack: AckMode::Immediate, sack: r.chance(0.5), answer_fin: true, rx_model: None };
+        peer.synack_delay_ms = r.range(0, 20);
+        peer.pkts = vec![];
+        let quiet = AutoCfg { ack: AckMode::Manual, ..peer.auto.clone() };
+        let mut st = vec![];
+        if role == PeerRole::Connector {
+            st.push(PeerStep::Ack { ack_delta: 0, wnd: None, sack: SackSpec::None });
+        }
+        st.push(PeerStep::Wait(60));
+        st.push(PeerStep::SetAuto(quiet));
+        st.push(PeerStep::Wait(r.range(400, 1000)));
+        let mut back = n2 as i32 - 1;
+        while back > 0 {
+            st.push(PeerStep::Ack { ack_delta: -back, wnd: None, sack: SackSpec::None });
+            st.push(PeerStep::Wait(r.range(5, 120)));
+            back -= r.range(1, 2) as i32;
+        }
+        st.push(PeerStep::SetAuto(peer.auto.clone()));
+        st.push(PeerStep::Ack { ack_delta: 0, wnd: None, sack: SackSpec::Auto });
+        st.push(PeerStep::Wait(300));
+        peer.steps = st;
+        let mut w = vec![WOp::Write { n: 3 * mss as u64, chunk: 65536 }, WOp::Sleep(100), WOp::Write { n: n2 * mss as u64 - r.below(100), chunk: 65536 }, WOp::Sleep(r.range(120, 500))];
+        let rd = match r.below(3) {
+            0 => {
+                w.push(WOp::Shutdown);
+                vec![ROp::Read { n: u64::MAX, buf: 4096, vectored: false }]
+            }
+            _ => {
+                w.push(WOp::Drop);
+                vec![ROp::Sleep(350), ROp::Drop]
+            }
+        };
+        side = Side { w, r: rd };
+        opts.max_retx = Some(8);
+        opts.inactivity_ms = Some(20_000);
+        opts.disable_nagle = r.chance(0.5);
+        // (no path-MTU probing: the flight is a known number of equal segments)
+        opts.link_mtu = Some(if ipv6 { 1280 } else { 576 });
+    }
     let (connects, accepts) = match role {
         PeerRole::Connector => (vec![], vec![AcceptScript { node: 0, at_ms: 0, cancel_after_ms: None, side }]),
         PeerRole::Acceptor => (vec![ConnectScript { node: 0, to: 1, at_ms: 0, cancel_after_ms: None, side }], vec![]),
@@ -2107,6 +2153,16 @@ pub fn c10_hostile(seed: u64) -> Scenario {
             });
         }
     }
+    // the attacker's SYN arrives twice before the target's application calls accept (both
+    // copies wait in the backlog): the accept calls of the target come late in these runs
+    let late_accepts = own.is_some() && r.chance(0.25);
+    if late_accepts {
+        let o = own.as_ref().unwrap();
+        for _ in 0..r.range(1, 2) {
+            steps.push(AttackStep { at_ms: o.at_ms + r.below(2), src: Src::Own, kind: Kind::Syn { cid: o.cid, seq: o.isn } });
+        }
+    }
+    let late_from = own.as_ref().map(|o| o.at_ms).unwrap_or(0);
     let attack = AttackScript { seed: r.next(), idx: 2, target: 0, own, steps };
     let mut accepts = vec![];
     let mk_acc = |r: &mut Rng, node: usize, at_ms: u64| {
@@ -2120,7 +2176,7 @@ pub fn c10_hostile(seed: u64) -> Scenario {
     };
     let to0 = connects.iter().take(2).filter(|c| c.to == 0).count() + attack.syn_count() + 2;
     for _ in 0..to0 {
-        let t = r.range(0, 5);
+        let t = if late_accepts { late_from + r.range(50, 400) } else { r.range(0, 5) };
         accepts.push(mk_acc(&mut r, 0, t));
     }
     let to1 = connects.iter().take(2).filter(|c| c.to == 1).count() + 1;
